@@ -27,6 +27,15 @@ pub struct Case {
     pub extra_other: (Srv, Car, Vec<u32>),
     pub k2: f32,
     pub pow: u8,
+    /// reference area of the base evaluation and of the "another area" variant
+    #[serde(default = "one")]
+    pub area: f32,
+    #[serde(default = "one")]
+    pub area2: f32,
+}
+
+fn one() -> f32 {
+    1.0
 }
 
 fn base_building(c: &Case) -> Building {
@@ -41,9 +50,13 @@ fn base_building(c: &Case) -> Building {
     b
 }
 
-fn eval(b: &Building, c: &Case, k: f32) -> Result<EnergyPerformance, Failure> {
+fn eval_area(b: &Building, c: &Case, k: f32, area: f32) -> Result<EnergyPerformance, Failure> {
     let inp = inputs(b, &c.d.factors())?;
-    eval_sound(&inp.comps, &inp.factors, k, 1.0, c.d.lm)
+    eval_sound(&inp.comps, &inp.factors, k, area, c.d.lm)
+}
+
+fn eval(b: &Building, c: &Case, k: f32) -> Result<EnergyPerformance, Failure> {
+    eval_area(b, c, k, c.area)
 }
 
 fn strip_digits(s: String) -> String {
@@ -68,7 +81,7 @@ impl Prop for C15 {
     fn rule() -> String {
         "cases = DHW grammar: 1-4 suppliers among {direct electric, heat pump (el + ambient, optionally low-SCOP excluded), solar thermal, RED1/RED2 with user factors, fossil boiler with efficiency, BIOMASA / BIOMASADENSIFICADA boiler with or without SALIDA}, \
          per-step values, demand consistent with the useful heat supplied (or absent / zero: non-computable classes), PV of any size shared with another service's electricity, AUX on the DHW system, other services, nEPB uses, 1-12 steps, regulatory factors with user RED1/RED2, 30 %: a cogeneration unit with 1-3 fuels (nearby and distant, own profiles, steps without electricity) whose electricity is used after the PV, plus an optional second unit added to the base building (invariances only); \
-         oracle = closed-form fraction (f64) vs fraccion_renovable_acs_nrb within 1e-4, value in [0,1], error class parity, misc map content, and invariance under added nEPB lines, added non-electric lines of other services, another k_exp and scaling by 2^k; \
+         oracle = closed-form fraction (f64) vs fraccion_renovable_acs_nrb within 1e-4, value in [0,1], error class parity, misc map content, and invariance under added nEPB lines, added non-electric lines of other services, another k_exp, another reference area and scaling by 2^k; \
          non-trivial = >= 2 suppliers and (PV shared with another service, or AUX, or biomass)"
             .into()
     }
@@ -91,8 +104,9 @@ impl Prop for C15 {
             (select(vec![Srv::CAL, Srv::REF, Srv::VEN, Srv::ILU]), select(vec![Car::GASNATURAL, Car::BIOMASA, Car::BIOMASADENSIFICADA, Car::RED2, Car::EAMBIENTE, Car::CARBON]), proptest::collection::vec(0u32..=100_000, 1..=4)),
             crate::gen::kexp_s(),
             1u8..=8,
+            (select(vec![1.0f32, 1.0, 0.5, 37.5, 100.0, 8192.0, 1e5]), select(vec![1.0f32, 0.01, 2.0, 250.0, 1e4, 1e6])),
         )
-            .prop_map(|(d, cogen, extra_nepb, extra_other, k2, pow)| Case { d, cogen, extra_nepb, extra_other, k2, pow })
+            .prop_map(|(d, cogen, extra_nepb, extra_other, k2, pow, (area, area2))| Case { d, cogen, extra_nepb, extra_other, k2, pow, area, area2 })
             .boxed()
     }
     fn describe(c: &Case) -> Value {
@@ -168,8 +182,9 @@ impl Prop for C15 {
         variants.push(("another k_exp", b.clone(), c.k2, 1.0));
         let cf = 2f32.powi(c.pow as i32);
         variants.push(("scaled building", scale(&b, cf), c.d.k, cf));
-        for (what, bv, k, _cf) in variants {
-            let epv = eval(&bv, c, k)?;
+        variants.push(("another reference area", b.clone(), c.d.k, -1.0));
+        for (what, bv, k, cf) in variants {
+            let epv = if cf < 0.0 { eval_area(&bv, c, k, c.area2)? } else { eval(&bv, c, k)? };
             let gv = match catch(|| fraccion_renovable_acs_nrb(&epv)) {
                 Ok(r) => r,
                 Err(p) => fail!("panic", "fraccion_renovable_acs_nrb panicked: {}", p),
